@@ -3,6 +3,7 @@ by google.protobuf.json_format.Parse for the same schema and yields the same mes
 json_format.MessageToJson emits is accepted by from_json and yields the same message; keys are
 the lowerCamelCase JSON names."""
 import json
+import sys
 
 import betterproto
 from google.protobuf import json_format
@@ -201,10 +202,104 @@ def correspond(chk, drv, b, vals):
             chk.disagree(what, {"schema": b.schema_line(), "line": ln}, got, want)
 
 
+_TWO = []
+
+
+def two_enum_classes():
+    """one message type whose fields use TWO DIFFERENT enum types with overlapping numbers (the generated schemas of
+    bpgen share a single enum type); value names equal the Python member names, so D16 does not interfere"""
+    if _TWO:
+        return _TWO[0]
+    import dataclasses
+    from typing import List
+    from google.protobuf import descriptor_pb2, descriptor_pool, message_factory
+
+    class EnumA(betterproto.Enum):
+        A0 = 0
+        A1 = 1
+        A2 = 2
+        NEG = -1
+
+    class EnumB(betterproto.Enum):
+        B0 = 0
+        X = 1
+        Y = 2
+        Z = 5
+
+    ns = {"EnumA": EnumA, "EnumB": EnumB, "List": List}
+    M = dataclasses.make_dataclass("TwoEnums", [
+        ("a", "EnumA", betterproto.enum_field(1)), ("ra", "List[EnumA]", betterproto.enum_field(2)),
+        ("b", "EnumB", betterproto.enum_field(3)), ("rb", "List[EnumB]", betterproto.enum_field(4)),
+        ("a2", "EnumA", betterproto.enum_field(5))], bases=(betterproto.Message,), eq=False, repr=False)
+    mod = __import__("types").ModuleType("c05_two_enums")
+    mod.__dict__.update(ns)
+    mod.TwoEnums = M
+    sys.modules["c05_two_enums"] = mod
+    M.__module__ = "c05_two_enums"
+    fdp = descriptor_pb2.FileDescriptorProto()
+    fdp.name, fdp.package, fdp.syntax = "c05_two_enums.proto", "c05two", "proto3"
+    for ename, E in (("EnumA", EnumA), ("EnumB", EnumB)):
+        en = fdp.enum_type.add()
+        en.name = ename
+        for mem in E:
+            ev = en.value.add()
+            ev.name, ev.number = mem.name, int(mem)
+    dp = fdp.message_type.add()
+    dp.name = "TwoEnums"
+    for name, num, rep, ety in (("a", 1, 0, "EnumA"), ("ra", 2, 1, "EnumA"), ("b", 3, 0, "EnumB"), ("rb", 4, 1, "EnumB"), ("a2", 5, 0, "EnumA")):
+        fd = dp.field.add()
+        fd.name, fd.number, fd.label, fd.type, fd.type_name = name, num, 3 if rep else 1, 14, ".c05two." + ety
+    pool = descriptor_pool.DescriptorPool()
+    pool.Add(fdp)
+    R = message_factory.GetMessageClass(pool.FindMessageTypeByName("c05two.TwoEnums"))
+    _TWO.append((M, R, EnumA, EnumB))
+    return _TWO[0]
+
+
+def two_enum_stage(chk):
+    """C05 for a message with fields of two different enum types: names written / accepted are those of the FIELD's own enum"""
+    M, R, EnumA, EnumB = two_enum_classes()
+    rng = chk.rng
+    na, nb = [0, 1, 2, -1, 7], [0, 1, 2, 5, 9]
+    combos = [(a, b) for a in na for b in nb]
+    for a, bb in combos:
+        ra = [rng.choice(na) for _ in range(rng.choice([0, 1, 3]))]
+        rb = [rng.choice(nb) for _ in range(rng.choice([0, 1, 3]))]
+        a2 = rng.choice(na)
+        inp = {"stage": "two-enum-types", "a": a, "ra": ra, "b": bb, "rb": rb, "a2": a2}
+        chk.case("two-enums %r" % (inp,), True, inp)
+        chk.count("two_enum_types")
+        m = M(a=EnumA.try_value(a), ra=[EnumA.try_value(x) for x in ra], b=EnumB.try_value(bb), rb=[EnumB.try_value(x) for x in rb],
+              a2=EnumA.try_value(a2))
+        r = R(a=a, ra=ra, b=bb, rb=rb, a2=a2)
+        try:
+            ours = json.loads(m.to_json())
+            theirs = json_format.MessageToDict(r)
+        except Exception as e:
+            chk.fail("to-json-raises", inp, repr(e))
+            continue
+        if ours != theirs:
+            chk.fail("enum-json-differs-from-reference", inp, "betterproto %r reference %r" % (ours, theirs))
+            continue
+        try:
+            got = json_format.Parse(m.to_json(), R())
+            if got != r:
+                chk.fail("reference-reads-other-message", inp, "%r" % (json_format.MessageToDict(got),))
+        except Exception as e:
+            chk.fail("reference-rejects-json", inp, repr(e))
+        try:
+            back = M().from_json(json_format.MessageToJson(r))
+            if bytes(back) != r.SerializeToString():
+                chk.fail("from-reference-json-differs", inp, "%s vs %s" % (bytes(back).hex(), r.SerializeToString().hex()))
+        except Exception as e:
+            chk.fail("from-reference-json-raises", inp, repr(e))
+
+
 def run(chk, drv):
     quick = chk.tier == "quick"
+    two_enum_stage(chk)
     chk.extra["rule"] = (
-        "the C04 generator (bpgen schemas with cased field names and JSON-relevant scalar types, values biased to 64-bit limits, "
+        "a message with fields of two different enum types (all number pairs incl. undefined numbers) against the reference; then the C04 generator (bpgen schemas with cased field names and JSON-relevant scalar types, values biased to 64-bit limits, "
         "non-finite floats, -0.0, bytes, undefined enum numbers, datetime / timedelta extremes at microsecond resolution, default-valued "
         "oneof / optional members) with the google.protobuf dynamic classes of the same schema. Each value: to_json -> json_format.Parse "
         "-> serialised message compared with the reference parse of bytes(m); MessageToJson -> from_json -> bytes compared; keys checked "
